@@ -149,6 +149,12 @@ theorem genome_tree_spec {V : Type} (tab : SymTab) (sem : Nat → Nat → List V
           Bool.false_eq_true, List.append_nil]
     · simp [evalF, g5, evalTree]
 
+theorem catWith_congr {p q : Locus → Option Bytes} :
+    ∀ (ls : List Locus), (∀ l ∈ ls, p l = q l) → catWith p ls = catWith q ls
+  | [], _ => rfl
+  | l :: ls, h => by
+    simp only [catWith, h l (by simp), catWith_congr ls (fun k hk => h k (by simp [hk]))]
+
 /-! ### vectors -/
 
 theorem packGa_inj : ∀ (xs ys : List Nat), (∀ x ∈ xs, x < 2 ^ 32) → (∀ y ∈ ys, y < 2 ^ 32) →
